@@ -230,7 +230,7 @@ def parse_leaf_functions(text):
        -> name -> (ret type text, [(type text, param)], return expression text)."""
     text = strip_comments(text)
     out = {}
-    for m in re.finditer(r"^([A-Za-z_][\w \t\*]*?)\s*\n([A-Za-z_]\w*)\s*\(([^)]*)\)\s*\n\{(.*?)\n\}", text, re.M | re.S):
+    for m in re.finditer(r"^([A-Za-z_][\w \t\*]*?)[ \t]*[\n \t]([A-Za-z_]\w*)\s*\(([^)]*)\)\s*\n\{(.*?)\n\}", text, re.M | re.S):
         ret, name, params, body = m.group(1).strip(), m.group(2), m.group(3).strip(), m.group(4).strip()
         mm = re.fullmatch(r"return\s+(.*?);", body, re.S)
         if not mm:
@@ -531,6 +531,12 @@ def parse_cfold(src, types, macros, leafs, sig):
                     m = re.fullmatch(r"foam\s*=\s*foamNewNil\s*\(\s*\)", s)
                     if m:
                         result = ("FPtr", ("lit", 0, "PTR"))
+                        continue
+                    m = re.fullmatch(r"s\s*=\s*cfoldArrToString\s*\(\s*argv\[(\d)\]\s*\)", s)
+                    if m:
+                        env["s"] = ("arg", int(m.group(1)), "PTR")
+                        continue
+                    if re.fullmatch(r"strFree\s*\(\s*s\s*\)", s) and "s" in env:
                         continue
                     m = re.fullmatch(r"([a-z])\s*=\s*(.*)", s, re.S)
                     if m and m.group(1) in ("n",):
